@@ -73,6 +73,11 @@ def generate(seed, tier):
             else:
                 body.insert(wrng.randrange(len(body)), ["arm_iofault", {"skip": wrng.randint(0, 3), "errno": wrng.choice(("EIO", "ENOSPC"))}])
                 end = ["raise_if_not_failed"]
+            fr = random.Random("%s/cfault/%d/%d" % (seed, wi, ti))
+            if end[0] == "commit" and storage_kind == "file" and fr.random() < 0.06:
+                # the with-block's commit publishes its generation and then fails in its clean-up (the scratch
+                # directory cannot be removed): the commit counts, and the lock must come back all the same
+                end = ["commit_cleanup_fails", {"merge": "none"}]
             txs.append({"timeout": wrng.choice((0.0, 0.3, 2.0, 30.0)), "delay": wrng.choice((0.05, 0.1)),
                         "body": body, "end": end,
                         "think": (wrng.choice((0.05, 0.3, 1.0, 3.0)) if wrng.random() < 0.35 else 0)})
@@ -398,6 +403,50 @@ def _app_step(self, op):
             s.os.exit_proc(child)
         k.spawn(helper, "helper:%s" % self.name, proc=child)
         s.count("app_forks")
+        return
+    if op[0] == "commit_cleanup_fails":
+        import errno as _e
+        s = self.s
+        k = s.k
+        w, mw = self.w, self.mw
+        if w is None or self.failed_in_body is not None:
+            return SchedWriter.step(self, ["commit", {"merge": "none"}] if self.failed_in_body is None else ["raise_if_not_failed"])
+        k.event("step", "commit_cleanup_fails")
+        task = k.current
+        fired = {}
+
+        def plan(kind, name):
+            if kind != "rmdir" or k.current is not task:
+                return None
+            s.os.fail_plan = None
+            fired["x"] = True
+            s.count("iofault_fired_rmdir")
+            e = OSError(_e.EBUSY, "injected EBUSY", name)
+            e.injected = True
+            return e
+        s.os.fail_plan = plan
+        self.in_commit = True
+        self.pending_commit = (mw, False)
+        try:
+            # the end of "with ix.writer() as w:" without an exception in the body
+            w.__exit__(None, None, None)
+        except (SimAbort, SimKilled, HarnessError, Violation):
+            raise
+        except OSError as e:
+            if not getattr(e, "injected", False):
+                raise Violation("commit_raised", "commit raised %s: %s" % (type(e).__name__, e), sig="commit_raised:" + exc_sig(e))
+            s.count("commit_failed_in_cleanup")
+        except Exception as e:  # noqa
+            raise Violation("commit_raised", "commit raised %s: %s" % (type(e).__name__, e), sig="commit_raised:" + exc_sig(e))
+        finally:
+            self.in_commit = False
+            s.os.fail_plan = None
+        self.apply_pending_commit()
+        self.w = self.mw = None
+        self.commits += 1
+        self.last_outcome = "commit"
+        self.last_commit_kind = "none"
+        s.count("commits")
         return
     return SchedWriter.step(self, op)
 
